@@ -1150,6 +1150,19 @@ void SPxSolverBase<R>::setType(Type tp)
       this->theLP = this;
       initRep(p_rep);
 
+      // the iteration statistics are reset at the start of solve(); their accessors may be called before that (or after
+      // a solve() that threw before reaching the reset)
+      leaveCount = 0;
+      enterCount = 0;
+      primalCount = 0;
+      polishCount = 0;
+      boundflips = 0;
+      totalboundflips = 0;
+      enterCycles = 0;
+      leaveCycles = 0;
+      primalDegenSum = 0;
+      dualDegenSum = 0;
+
       // info: SPxBasisBase is not consistent in this moment.
       //assert(SPxSolverBase<R>::isConsistent());
    }
